@@ -480,7 +480,7 @@ def p_C13(ctx):
                 "distinct by (implementor, shape, stack, op, args)")
     ctx.assumptions = ACC_ASSUME
     shapes = [0, 11, 13, 31, 23, 32, 33] if ctx.quick else ALL_SHAPES4
-    r = acc_tlc(ctx, "prims", ["prim"], shapes, kinds=("owned", "plain", "torus", "slice_m"), depth=1,
+    r = acc_tlc(ctx, "prims", ["prim"], shapes, kinds=("owned", "plain", "torus", "plainv", "slice_m"), depth=1,
                 bigs=(BIG_MAX, BIG_WRAP) if ctx.quick else (BIG_MAX, BIG_HALF1, BIG_P32, BIG_WRAP), workers=8 if ctx.quick else 12)
     # b3 / b1 / w80: Copy element types of 3, 1 and 80 bytes (word-at-a-time, memset and "large element" fast paths)
     combos = [("dev", "u32"), ("release", "elem"), ("dev", "elem"), ("release", "b3"), ("release", "b1"), ("release", "w80"), ("dev", "a128"), ("release", "w8")]
@@ -501,7 +501,7 @@ def p_C14(ctx):
     ctx.assumptions = ACC_ASSUME
     algos_check(ctx, ["copywithin"])      # Layer B: the row loop with its direction choice computes Grid!CopyWithin
     shapes = [0, 11, 13, 31, 23, 32, 33] if ctx.quick else ALL_SHAPES4
-    r = acc_tlc(ctx, "copies", ["copy"], shapes, kinds=("owned", "plain", "slice_m"), depth=1,
+    r = acc_tlc(ctx, "copies", ["copy"], shapes, kinds=("owned", "plain", "plainv", "slice_m"), depth=1,
                 bigs=(BIG_MAX,) if ctx.quick else (BIG_MAX, BIG_HALF1, BIG_WRAP), workers=8 if ctx.quick else 12)
     # z0: zero-sized Copy cells (nothing to move, every check must still be made); a128: alignment 128 (dev: std's pointer checks)
     combos = [("dev", "u32"), ("release", "b3"), ("dev", "elem"), ("release", "w80"), ("release", "b1"), ("release", "z0"), ("dev", "a128"), ("release", "w8"), ("release", "w24")] + ([] if ctx.quick else [("release", "u32"), ("dev", "b3"), ("dev", "w80")])
@@ -519,7 +519,7 @@ def p_C15(ctx):
     algos_check(ctx, ["translate"])       # Layer B: the cycle-leader walk computes Grid!Translate, terminates, stays in range
     n = 6 if ctx.quick else 9
     big_shapes = [c * 10 + r for c in range(1, n + 1) for r in range(1, n + 1)] + [0]
-    r = acc_tlc(ctx, "moves-owned", ["move"], big_shapes, kinds=("owned", "plain"), depth=0, workers=8)
+    r = acc_tlc(ctx, "moves-owned", ["move"], big_shapes, kinds=("owned", "plain", "plainv"), depth=0, workers=8)
     acc_replays(ctx, r, [("dev", "u32"), ("release", "elem"), ("release", "w80"), ("dev", "a128")], "moves-owned")
     r2 = acc_tlc(ctx, "moves-views", ["move"], [13, 31, 23, 32, 33] if ctx.quick else ALL_SHAPES4, kinds=("owned", "slice_m"), depth=1, workers=8)
     acc_replays(ctx, r2, [("dev", "u32"), ("release", "b3"), ("dev", "elem"), ("release", "b1"), ("release", "w80"), ("dev", "a128"), ("release", "z0"), ("release", "w8")], "moves-views")
@@ -535,7 +535,7 @@ def sort_pipeline(ctx, by):
     ctx.assumptions = ACC_ASSUME
     algos_check(ctx, ["swaptrace"])       # Layer B: build_swap_trace realises the sorting permutation with in-range indices
     shapes = [0, 11, 13, 31, 23, 32, 33, 14, 41] if ctx.quick else ALL_SHAPES4
-    r = acc_tlc(ctx, "sorts", [grp], shapes, kinds=("owned", "plain", "slice_m"), depth=1,
+    r = acc_tlc(ctx, "sorts", [grp], shapes, kinds=("owned", "plain", "plainv", "slice_m"), depth=1,
                 bigs=(BIG_MAX, BIG_WRAP), workers=8 if ctx.quick else 12)
     combos = [("dev", "u32"), ("release", "elem"), ("release", "b3"), ("release", "w80"), ("dev", "a128"), ("release", "w24")]      # w80: an 80-byte element
     if not ctx.quick:
